@@ -266,10 +266,12 @@ structure CnOK (F : Fn α) (soil : SoilW α) (fm : FieldMngt α) : Prop where
         ((cnBounds F (cn0Of soil fm)).2 - (cnBounds F (cn0Of soil fm)).1) * wt) ≤ 100
 
 /-- **premises on the configuration for C02**: the curve-number range for both field-management
-records -/
+records, and the law of the `term ** 2` in the SCS runoff (`x ** 2 = x · x`: with it runoff and
+infiltration are both non-negative, so the `max(Infl, 0)` of `infiltration` is the identity) -/
 structure CfgSurfOK (F : Fn α) (cfg : RunCfg α) : Prop where
   cn : CnOK F cfg.W0.soil cfg.fm
   cnF : CnOK F cfg.W0.soil cfg.fallowFm
+  sq : PowSqLaw F
 
 /-- **premise on the weather table for C02**: no negative rain -/
 structure RainOK (cfg : RunCfg α) : Prop where
@@ -368,7 +370,7 @@ theorem run_partition (hS : CfgSurfOK F cfg) (hW : RainOK cfg) (hr : RunReach F 
   have hc := run_dayCfg hr d hd
   have hday := run_days hr d hd
   rw [← hc.rain]
-  exact fullDay_partition hday (by rw [hc.rain]; exact hW.rain _)
+  exact fullDay_partition hS.sq hday (by rw [hc.rain]; exact hW.rain _)
     (fullDay_cn_range hday (hS.day hc))
 
 /-- the efficiency-adjusted application is `Irr · AppEff/100` on a growing-season day and 0
@@ -525,7 +527,7 @@ theorem run_pondInv (hC : CfgOK F T cfg) (hT : CfgTrOK F cfg A) (hJ0 : CfgRwOK F
 theorem dayFrom_dayPre {d : DayRec α} (hC : CfgOK F T cfg) (hI : WaterInv cfg s)
     (hd : DayFrom F T cfg s d) : DayPre F d.P.W d.st.cells d.st.water := by
   rw [hd.st]
-  refine ⟨hC.fn.exp, hI.pre, hI.pond, ?_⟩
+  refine ⟨hC.fn.exp, hC.fn.powSq, hI.pre, hI.pond, ?_⟩
   rw [hd.P]; exact paramsOf_smt hC.runPre _ _
 
 /-- **`run_negative_infiltration`**: on every simulated day of every run reported infiltration is
@@ -618,7 +620,7 @@ theorem run_gw_fcAdj (hC : CfgOK F T cfg) (hr : RunReach F T cfg s)
   have hday := run_days hr d hd
   obtain ⟨hpre, _, _⟩ := (run_inv_closed hC hr hR).2 d hd
   rw [(fullDay_rows hday).1]
-  exact waterDay_fcAdj_range (fullDay_water hday) (by rw [hc.waterTable]; exact hwt)
+  exact waterDay_fcAdj_range hC.fn.powSq (fullDay_water hday) (by rw [hc.waterTable]; exact hwt)
     (fun x hx => (hpre.pre x hx).inv.wf)
 
 /-- **`run_gw_saturated`**: with a water table, at the end of every simulated day every
